@@ -11,12 +11,15 @@
 (*     opt : frames that may additionally be written (standard/property leave it open)          *)
 (*     ev  : public events fired, in order ("connected","communicating","disconnected")        *)
 (*     dlv : TRUE iff the inbound data message is delivered to the application (exactly once)   *)
+(*     rep : TRUE iff the inbound data message is handed to the application thread that waits   *)
+(*           for the reply of its own request (system bytes of an open data transaction)        *)
 (* The behaviour spec below steps through Eff; E37Judge folds Eff over recorded executions.     *)
 EXTENDS Naturals, Sequences, FiniteSets, TLC, Json
 
 Fr(st, sys, reason) == [st |-> st, sys |-> sys, reason |-> reason]
-NoOut == [req |-> <<>>, opt |-> {}, ev |-> <<>>, dlv |-> FALSE]
-Out(req, opt, ev, dlv) == [req |-> req, opt |-> opt, ev |-> ev, dlv |-> dlv]
+NoOut == [req |-> <<>>, opt |-> {}, ev |-> <<>>, dlv |-> FALSE, rep |-> FALSE]
+Out(req, opt, ev, dlv) == [req |-> req, opt |-> opt, ev |-> ev, dlv |-> dlv, rep |-> FALSE]
+OutRep(req, opt, ev) == [req |-> req, opt |-> opt, ev |-> ev, dlv |-> FALSE, rep |-> TRUE]
 
 CtrlReq == {"Select.req", "Deselect.req", "Linktest.req"}
 RspOf(st) == CASE st = "Select.req" -> "Select.rsp" [] st = "Deselect.req" -> "Deselect.rsp"
@@ -29,6 +32,8 @@ Inputs ==
                   "Reject.req", "Deselect.rsp", "Select.rsp"}}
   \cup {[k |-> "Ctrl", st |-> "Select.rsp", sys |-> "open", status |-> s] : s \in {0, 1}}
   \cup {[k |-> "Data", w |-> w, sf |-> sf] : w \in BOOLEAN, sf \in {"known", "unknown", "badbody"}}
+  \cup {[k |-> "AppRequest"], [k |-> "WaitT3"]}
+  \cup {[k |-> "DataFor", sys |-> x] : x \in {"opendata", "opensel"}}
 
 R(en, s, out) == [en |-> en, s |-> s, out |-> out]
 
@@ -71,6 +76,18 @@ Eff(s, i) ==
                 \* Select.rsp / Deselect.rsp / Linktest.rsp / Reject.req without an open transaction:
                 \* the session must not change (a Reject "transaction not open" is allowed)
                 R(s.cs # "NC", s, Out(<<>>, {Fr("Reject.req", "echo", 3)}, <<>>, FALSE))
+    [] i.k = "AppRequest" ->
+         \* an application thread sends a primary and waits for the reply (T3)
+         R(s.cs = "SEL" /\ ~s.openData, [s EXCEPT !.openData = TRUE], Out(<<Fr("Data", "fresh", 0)>>, {}, <<>>, FALSE))
+    [] i.k = "WaitT3" ->
+         R(s.cs # "NC", [s EXCEPT !.openSel = FALSE, !.openData = FALSE], NoOut)
+    [] i.k = "DataFor" ->
+         \* a data message whose system bytes match an open transaction of the endpoint
+         IF i.sys = "opendata"
+           THEN R(s.cs # "NC" /\ s.openData,
+                  IF s.cs = "SEL" THEN [s EXCEPT !.openData = FALSE] ELSE s,
+                  IF s.cs = "SEL" THEN OutRep(<<>>, {}, <<>>) ELSE Out(<<Fr("Reject.req", "echo", 4)>>, {}, <<>>, FALSE))
+           ELSE R(s.cs = "NS" /\ s.openSel, s, Out(<<Fr("Reject.req", "echo", 4)>>, {}, <<>>, FALSE))
     [] i.k = "Data" ->
          R(s.cs # "NC", s,
            IF s.cs = "SEL" THEN Out(<<>>, {}, <<>>, TRUE)
